@@ -98,6 +98,25 @@ def run_wcl(c: Ctx, handler: Rec, event: Rec, depth: int = 0):
     ov['._handler_dispatched_ancestor'] = lambda *a: depth
     ai = AbsInt(calls=ov, program=c.prog, module=w.module)
     env = {ps[0]: Rec(name='A', _cls='EventBus'), ps[1]: event, ps[2]: handler, 'EventBus': Rec(dispatch=Obj('function', 'EventBus.dispatch'), _is_class=True)}
+    # what the library's own call sites hand in through parameters beyond (self, event, handler) is part of the decision: evaluate the argument expression at the call site
+    # over the same abstract event / handler (an argument that cannot be evaluated is UNKNOWN: a test that depends on it is reported as undecided, never assumed)
+    a = w.node.args
+    names = [x.arg for x in a.posonlyargs + a.args]
+    extra = [n for n in names[3:] + [k.arg for k in a.kwonlyargs]]
+    for cu, call in (c.cg.callers(w) if extra else []):
+        if not (isinstance(call.func, ast.Attribute) and len(call.args) >= 2 and all(isinstance(x, ast.Name) for x in call.args[:2]) and isinstance(call.func.value, ast.Name)):
+            continue
+        cenv = {call.func.value.id: env[ps[0]], call.args[0].id: event, call.args[1].id: handler}
+        for n_ in extra:
+            given = next((k.value for k in call.keywords if k.arg == n_), None)
+            if given is None and n_ in names and len(call.args) > names.index(n_) - 1:
+                given = call.args[names.index(n_) - 1]
+            if given is None:
+                continue
+            v = AbsInt(calls=ov, program=c.prog, module=cu.module).ev(q.deref(cu, given), dict(cenv))
+            if n_ in env and env[n_] != v:
+                raise AnalysisError(f'_would_create_loop: call sites disagree on what they pass for `{n_}`')
+            env[n_] = v
     end = ai.run(w.node.body, bind_defaults(w, env))
     if ai.undecided:
         raise AnalysisError(f'_would_create_loop: test `{U(ai.undecided[0])[:80]}` is undecided for handler {dict(handler)!r:.120}')
@@ -121,7 +140,8 @@ def handler_kinds() -> list[tuple[str, Rec, bool]]:
 
 @ob('C07.2', 'ORD', "_would_create_loop returns True for a forwarding handler (another bus's dispatch, also of an EventBus subclass) whose target bus name is already in "
     'event_path, before any other consideration, and False when it is not, at any nesting depth (forwarding is exempt from the recursion guard); a handler that is not a '
-    'forward is never cut by the path test and stays subject to the recursion guard')
+    'forward is never cut by the path test and stays subject to the recursion guard; what the library\'s own call sites pass through further parameters is evaluated at the call '
+    'site and bound (not assumed to be the default)')
 def c07_2(c: Ctx) -> None:
     w = c.unit(SVC, 'EventBus._would_create_loop')
     for kdesc, h, is_fwd in handler_kinds():
